@@ -131,6 +131,23 @@ Theorem C19_load_ignores_stale_error : forall w n ops i j h s r,
 Proof. exact load_ignores_stale_error. Qed.
 Print Assumptions C19_load_ignores_stale_error.
 
+(* the dl exception CARRIES the diagnostic: the exception caught from a failed open / look-up returns the diagnostic of that
+   very failure when read at once and whenever it is read later, whatever loader operations happen in between *)
+Theorem C19_caught_exception_carries_its_diagnostic : forall w n ops o dle,
+  let xs := x_run w (x_init n) ops in
+  snd (d_step w (xd xs) o) = DRaise dle ->
+  let xs' := fst (x_step w xs (XOp o)) in
+  snd (x_step w xs' (XRead (length (xlog xs)))) = XDiag (Some dle) /\
+  forall more, snd (x_step w (x_run w xs' more) (XRead (length (xlog xs)))) = XDiag (Some dle).
+Proof. exact caught_exception_carries_its_diagnostic. Qed.
+Print Assumptions C19_caught_exception_carries_its_diagnostic.
+
+Theorem C19_exception_diagnostic_stable : forall w xs ops k d,
+  snd (x_step w xs (XRead k)) = XDiag (Some d) ->
+  snd (x_step w (x_run w xs ops) (XRead k)) = XDiag (Some d).
+Proof. exact exception_diagnostic_stable. Qed.
+Print Assumptions C19_exception_diagnostic_stable.
+
 (* complete histories: after the last owner is destroyed every library ever opened has been closed exactly once *)
 Theorem C19_complete_history_closes_once : forall w n ops r,
   In r (hs (d_finish (d_run w (d_init n) ops))) -> closes r = 1.
@@ -175,6 +192,9 @@ Proof. reflexivity. Qed.
 Example C19_ex_failed_open : d_step w0 (d_run w0 (d_init 3) [DStale 7]) (DOpen 0 5) = (mkD [] [None; None; None] None 0, DRaise (Some (DgOpen 5))).
 Proof. reflexivity. Qed.
 Example C19_ex_failed_load : snd (d_step w0 (d_run w0 (d_init 3) [DOpen 0 1]) (DLoad 1 0 9)) = DRaise (Some (DgSym 1 9)).
+Proof. reflexivity. Qed.
+Example C19_ex_late_read : snd (x_step w0 (x_run w0 (x_init 3) [XOp (DOpen 0 5); XOp (DOpen 0 6); XOp (DOpen 0 0); XOp (DLoad 1 0 9); XOp (DDrop 0)]) (XRead 0))
+  = XDiag (Some (Some (DgOpen 5))).
 Proof. reflexivity. Qed.
 Example C19_ex_env_empty : env_run [] [ESet (B "X") (B ""); EGet (B "X") (B "dflt"); EGetNoDefault (B "X"); EUnset (B "X"); EGet (B "X") (B "dflt"); EGetNoDefault (B "X")]
   = [EOk (B ""); EOk (B ""); EOk (B "dflt"); ERaise].
